@@ -229,6 +229,23 @@ impl Analysis {
         result
     }
 
+    /// All symbols that are defined at a certain place in the source, in a fixed order. (There is more than one when the
+    /// place is assembled more than once.)
+    pub fn symbol_definitions_at(&self, span: Span) -> Vec<(SymbolIndex, &Definition)> {
+        self.definitions
+            .iter()
+            .filter_map(|(ty, definition)| match ty {
+                DefinitionType::Symbol(nx)
+                    if definition.location.as_ref().map(|l| l.span) == Some(span) =>
+                {
+                    Some((*nx, definition))
+                }
+                _ => None,
+            })
+            .sorted_by_key(|(nx, _)| nx.index())
+            .collect()
+    }
+
     pub fn look_up(&self, span: Span) -> SpanLoc {
         self.tree.code_map.look_up_span(span)
     }
